@@ -51,7 +51,7 @@ def project(log, sc, tid):
         elif k == "tclose":
             ev.append({"ev": "tclose", "t": t, "cid": e["cid"] if e["cid"] is not None else -1})
         elif k == "run_ret":
-            ev.append({"ev": "run_ret", "t": t, "value": e["value"], "run": e["run"]})
+            ev.append({"ev": "run_ret", "t": t, "value": e["value"], "run": e["run"], "live": list(e.get("live", []))})
         elif k == "run_raise":
             ev.append({"ev": "run_raise", "t": t, "cls": e["cls"], "run": e["run"]})
         elif k == "quiesce":
